@@ -36,8 +36,19 @@ def ext_suffix():
     return sysconfig.get_config_var("EXT_SUFFIX")
 
 
+def ensure_atheris():
+    """atheris (and its asan_with_fuzzer.so) live in .deps; install from the local wheelhouse if missing (offline)."""
+    if os.path.exists(os.path.join(DEPS, "asan_with_fuzzer.so")):
+        return
+    os.makedirs(DEPS, exist_ok=True)
+    subprocess.run([sys.executable, "-m", "pip", "install", "--no-index", "--find-links", "/opt/veriftools/wheels",
+                    "--disable-pip-version-check", "-q", "--target", DEPS, "atheris"], check=False)
+
+
 def build(flavour="plain"):
     """Return the overlay directory (to be put first on PYTHONPATH)."""
+    if flavour == "fuzz":
+        ensure_atheris()
     repo = repo_root()
     src_dir = os.path.join(repo, "traits")
     csrc = os.path.join(src_dir, "ctraits.c")
